@@ -20,12 +20,25 @@ placeholders), on the evaluation route (logd: must raise for every value) and on
 refusal must not depend on the value; an accepted call must give an object that evaluates to the reference under
 the positional or the keyword reading); a surplus keyword (unknown name / every other variable of the graph) x
 keyword or positional complete assignment x value; one positional too many x value.
+
+Nested / sequential model building (cells with a "nested" entry, helper _c01_nested.py): the MEMBERS of a joint may
+themselves be results of earlier conditionings.  Stage 1: a catalogue graph is conditioned along one of the histories
+above that fixes every variable but one; the library returns a single reduced density R over the kept variable (a
+Distribution carrying the constants of the fixed variables, a Posterior, a MultipleLikelihoodPosterior).  Stage 2: R is
+put into a NEW JointDistribution together with fresh densities that depend on the same variable (one more data set; a
+data set with a fresh hyper-parameter; two data sets of different sizes; four members), and this derived graph is
+explored exactly like a catalogue graph: every conditioning history, every call form, factor by factor (R is a factor),
+Posterior / MultipleLikelihoodPosterior decomposition (R is the prior), live-object reuse, malformed calls.  Oracle: the
+reference log-density of the COMPLETE assignment = stage-1 reference joint (the values fixed in stage 1 included) +
+scipy densities of the fresh factors.  Thorough tier also: three stages (the reduced density of a stage-2 joint is
+again a member).
 """
 import itertools
 import numpy as np
 from vfw.core import CellResult, close
 from vfw import refs
 from checks import _graphs as GR
+from checks import _c01_nested as NE
 
 PROPERTY = "C01"
 RULE = ("cells = model graph x value catalogue; inside a cell every conditioning history (ordered sequences of "
@@ -36,7 +49,12 @@ RULE = ("cells = model graph x value catalogue; inside a cell every conditioning
         "once per (graph, fixed set) the over-specified call shapes (positional+keyword for one variable, surplus "
         "keyword, extra positional) are enumerated x the value catalogue of the repeated/surplus argument on the "
         "evaluation and the conditioning route of the state object, its factors and its stacked view; a "
-        "cell is non-trivial when at least one history reduced the joint to a single density")
+        "cell is non-trivial when at least one history reduced the joint to a single density; "
+        "nested cells = graph x value catalogue x variable kept free: each stage-1 history that reduces the graph to ONE "
+        "density over the kept variable x each stage-2 shape gives a derived graph (the reduced density + fresh densities on "
+        "the same variable in a new JointDistribution) that is explored like a catalogue graph (all histories, all "
+        "well-formed call forms, factors, decomposition, reuse probe, 7 malformed forms; the over-specification value "
+        "catalogue is not repeated) against stage-1 reference joint + reference of the fresh factors")
 BOUND = {
     "quick": "11 graphs (G1-G5,G6a,G6b,G7,G8,G9 with <=4 variables, G10 with 5; dims<=4), 1 value catalogue (seed%3); all ordered "
              "set partitions of all variable subsets; per step modes {keyword, reversed keyword, positional prefix}; "
@@ -44,10 +62,17 @@ BOUND = {
              "state, on the state object / each factor / the stacked view: {positional prefix length 1..n} x {repeated prefix "
              "variable} x {logd, __call__} x 14-15 values (probe, +/- non-zero, 9 representations of zero incl. one-element "
              "and full-size zero arrays, False/None/empty), {unknown name, every other graph variable} surplus keyword x "
-             "{keyword, positional} x values, extra positional x values",
+             "{keyword, positional} x values, extra positional x values; "
+             "nested: every (graph, kept variable) of the 11 graphs (41 cells) x stage-1 histories {all other variables in one "
+             "keyword step, one variable per keyword step in parameter order} x stage-2 shapes {A: (e,R), C: (R,h,e) with fresh "
+             "Gamma hyper-parameter h, D: (e,f,R) two data sets of sizes 2 and 3} x all stage-2 histories with the quick step modes",
     "thorough": "same 10 graphs x all 3 value catalogues; per step modes {every keyword order, positional prefix, "
                 "first-variable positional + rest keyword}; plus the 5-variable graph G10 x 3 catalogues with the "
-                "quick tier's step modes; the over-specification alphabet of the quick tier on every graph x catalogue",
+                "quick tier's step modes; the over-specification alphabet of the quick tier on every graph x catalogue; "
+                "nested, x 3 catalogues: graphs with <=4 variables: shape A on EVERY stage-1 history (all ordered set partitions of "
+                "the other variables x {keyword, reversed keyword, positional prefix}), shapes C, D and B: (e,R,h,f) on the two "
+                "extreme stage-1 histories; G10: the quick plan; every graph: three stages (shape C reduced by {one step, one "
+                "variable per step}, then shapes A and D on top); stage-2/3 step modes are the quick tier's",
 }
 ASSUMPTIONS = [
     "one probe assignment per value catalogue (values dyadic, admissible: positive hyper-parameters, Beta in (0,1), "
@@ -69,6 +94,11 @@ ASSUMPTIONS = [
     "fixed set), not once per history",
     "library objects are held only in obj*/_* names or containers so that stack-based name inference cannot pick "
     "up harness variable names",
+    "nested cells: ASSEMBLING a joint is not covered by the statement, so a refused assembly is accepted and counted (on the "
+    "pinned tree a MultipleLikelihoodPosterior cannot be a member of a new joint: its name attribute is missing); a stage-1 "
+    "object that is not a correct single density is skipped there (the one-stage cells judge and report it); fresh "
+    "densities are Gaussians with linear callables as mean (no cuqi Model object) and a Gamma hyper-parameter; nesting "
+    "depth <= 2 (quick) / 3 (thorough); the over-specification value catalogue is enumerated on catalogue graphs only",
 ]
 
 RTOL = 1e-9
@@ -109,6 +139,18 @@ def cells(tier, seed):
     for gid in order:
         for k in cats:
             yield {"graph": gid, "cat": k, "tier": "quick" if gid in GR.ORDER5 else tier}
+    # nested / sequential model building: one cell per (graph, catalogue, variable kept free in stage 1)
+    for gid in order:
+        for k in cats:
+            for keep in GR.GRAPHS[gid].free:
+                yield {"graph": gid, "cat": k, "tier": tier, "nested": {"keep": keep}}
+
+
+# stage-1 history sets x stage-2 shapes per tier (see _c01_nested.py); 5-variable graphs always use the quick plan
+NESTED_PLAN = {
+    "quick": [("extreme", ("A", "C", "D"))],
+    "thorough": [("all", ("A",)), ("extreme", ("C", "D", "B"))],
+}
 
 
 # ----------------------------------------------------------------------------------------
@@ -174,12 +216,18 @@ def hist_str(history):
 
 
 class Explorer:
-    def __init__(self, res, cell):
+    def __init__(self, res, cell, graph=None, tag=None, nfail=None, tier=None, over=True):
+        """graph: a derived (nested) graph instead of the catalogue graph of the cell; tag: facet appended to every
+        signature of this explorer (nested graphs: kind of the member that stems from an earlier conditioning);
+        nfail: per-signature failure counter shared by all explorers of one cell."""
         self.res = res
         self.cell = cell
-        self.g = GR.GRAPHS[cell["graph"]]
+        self.g = graph if graph is not None else GR.GRAPHS[cell["graph"]]
+        self.tag = tag
+        self.over = over     # enumerate the over-specification value catalogue (False: well-formed + 7 malformed forms only)
+        self.nfail = nfail if nfail is not None else {}
         self.k = cell["cat"]
-        self.tier = cell.get("tier", "quick")
+        self.tier = tier or cell.get("tier", "quick")
         self.vals = self.g.values(self.k)
         self.reffac = self.g.ref_factors(self.k, self.vals)
         self.ref = float(sum(self.reffac.values()))
@@ -190,7 +238,8 @@ class Explorer:
 
     # -- failure helpers --------------------------------------------------------------------
     def fail(self, sig, msg, history, **detail):
-        self.nfail = getattr(self, "nfail", {})
+        if self.tag:
+            sig = "%s,%s" % (sig, self.tag)
         self.nfail[sig] = self.nfail.get(sig, 0) + 1
         if self.nfail[sig] > 40:       # keep the packed result small; the first 40 cases per signature and cell are kept
             self.res.count("failures_not_stored")
@@ -522,7 +571,7 @@ class Explorer:
         demands refusal of evaluations, so a conditioning call may be accepted - but then for EVERY value of the catalogue
         (refusal must not depend on the value), and the returned object must evaluate to the reference log-density under
         one of the two readings (positional value / keyword value)."""
-        if okey in self.over_seen or not names:
+        if not self.over or okey in self.over_seen or not names:
             return
         self.over_seen.add(okey)
         res = self.res
@@ -601,7 +650,7 @@ class Explorer:
         """Stacked view of a (conditioned) joint: the vector plus a keyword / a second vector must be refused; conditioning the
         stacked view by position + keyword goes through the same judge as every other conditioning call."""
         okey = ("stacked", br, key)
-        if okey in self.over_seen:
+        if not self.over or okey in self.over_seen:
             return
         try:
             _st = obj._as_stacked()
@@ -662,7 +711,71 @@ class Explorer:
             res.outcomes.add("%s:key=%s:branches=%s" % (self.g.gid, ",".join(sorted(key)), "/".join(sorted(set(o["branch"] for o in obs)))))
 
 
+def explore_nested(res, cell, g, nfail, over=False):
+    """One derived graph g (= one stage-1 history x one stage-2 shape): assemble, then explore like a catalogue graph.
+    Returns True when at least one stage-2 history reduced the new joint to a single density."""
+    k = cell["cat"]
+    base = g.base
+    res.count("nested:stage1-histories")
+    res.transitions += len(g.history)
+    # stage 1 (already judged by the one-stage explorer of the base graph: here only a precondition)
+    try:
+        _r = g.reduced(k)
+        member = branch_of(_r)
+        names = list(_r.get_parameter_names())
+        v1 = GR.scalar(_r.logd(GR.copy_val(g.base_values(k)[g.keep])))
+    except Exception:  # noqa
+        res.count("nested:skipped,stage1-refused")
+        return False
+    if member not in ("Distribution", "Posterior", "MultipleLikelihoodPosterior") or names != [g.keep] \
+            or not close(v1, base.ref_joint(k, g.base_values(k)), RTOL):
+        res.count("nested:skipped,stage1-not-a-correct-single-density")
+        return False
+    res.outcomes.add("nested-member:%s:%s" % (base.gid, member))
+    # stage 2: assembling a joint is not covered by the statement -> a refusal is accepted (and counted)
+    try:
+        g.build(k)
+    except Exception as e:  # noqa
+        res.refused += 1
+        res.count("nested:assembly-refused,member=%s" % member)
+        res.outcomes.add("nested-assembly-refused:%s:%s" % (member, type(e).__name__))
+        return False
+    res.count("nested:assembled,member=%s,shape=%s" % (member, g.shape))
+    tag = "member=%s" % member + (",level=%d" % g.level if g.level > 1 else "")
+    ex = Explorer(res, cell, graph=g, tag=tag, nfail=nfail, tier="quick", over=over)
+    ex.explore((), set())
+    ex.differential()
+    return ex.reduced
+
+
+def eval_nested(cell):
+    res = CellResult(cell)
+    base = GR.GRAPHS[cell["graph"]]
+    k = cell["cat"]
+    keep = cell["nested"]["keep"]
+    tier = cell.get("tier", "quick")
+    plan = NESTED_PLAN["quick" if cell["graph"] in GR.ORDER5 else tier]
+    nfail = {}
+    reduced = False
+    for which, shapes in plan:
+        for hist in NE.stage1_histories(base, k, keep, which, step_modes):
+            for shape in shapes:
+                reduced |= explore_nested(res, cell, NE.Nested(base, hist, shape), nfail)
+    if tier != "quick":
+        # three stages: the reduced density of a stage-2 joint (shape C: it carries the constant of the fresh
+        # hyper-parameter AND has the stage-1 density as its prior) is again a member of a new joint
+        hist1 = NE.stage1_histories(base, k, keep, "extreme", step_modes)[0]
+        inner = NE.Nested(base, hist1, "C", level=1)
+        for hist2 in NE.stage1_histories(inner, k, keep, "extreme", step_modes):
+            for shape in ("A", "D"):
+                reduced |= explore_nested(res, cell, NE.Nested(inner, hist2, shape, level=2), nfail)
+    res.nontrivial = reduced
+    return res
+
+
 def eval_cell(cell):
+    if cell.get("nested"):
+        return eval_nested(cell)
     res = CellResult(cell)
     ex = Explorer(res, cell)
     ex.explore((), set())
